@@ -81,6 +81,8 @@ FLOAT_OPS = {"timetell", "timetotal"}
 def compare(op, cline, mline):
     """None if the model's answer agrees with the library's on every field the model carries"""
     name = op.split(" ")[0]
+    if mline is not None and "wfbroken=1" in mline:
+        return "%s: the model reached a state outside DecWF (hypothesis of C07_seek_history_independent / C12_state_after_failure_is_forgotten)" % name
     if name in FLOAT_OPS:
         try:
             cv = float(cline.split(" ")[1])
